@@ -30,7 +30,7 @@ def main():
             if not paths[0] or not paths[k]:
                 continue
             r = vf.run([abidiff, "--no-default-suppression", paths[0], paths[k]], env=vf.henv(os.path.dirname(paths[0])))
-            evs.append({"e": "Neutral", "case": idx, "comp": comp, "cfg0": " ".join(CONFIGS[0]), "cfg1": " ".join(CONFIGS[k]), "exit": r.exit, "outlen": len(r.out),
+            evs.append({"e": "DebugFormat", "case": idx, "comp": comp, "cfg0": " ".join(CONFIGS[0]), "cfg1": " ".join(CONFIGS[k]), "typeUnits": "-fdebug-types-section" in CONFIGS[k], "exit": r.exit, "outlen": len(r.out),
                         "ret": campaign.retof(r), "out": r.out[:400]})
         return evs
 
